@@ -41,6 +41,7 @@ type cmdField struct {
 	Keep     string // expression asserting the field is unchanged
 	Req      string // extra precondition
 	IsString bool   // SMB_STRING / OEM_STRING field
+	Restrict string // the field is covered for some of its values only: which
 }
 
 type CmdSchema struct {
@@ -48,6 +49,7 @@ type CmdSchema struct {
 	AndX     bool
 	Fields   []cmdField
 	Unsup    string
+	Restrict []string // fields covered for some of their values only
 	NoLayout string // reason why the fixed-layout (Marshal) contract is not generated although the round-trip lemma is
 	PkgPath  string
 }
@@ -169,6 +171,9 @@ func (w *World) CommandSchemas() []*CmdSchema {
 				for _, f := range sc.Fields {
 					if f.Unsup != "" && sc.Unsup == "" {
 						sc.Unsup = f.Name + ": " + f.Unsup
+					}
+					if f.Restrict != "" {
+						sc.Restrict = append(sc.Restrict, f.Name+": "+f.Restrict)
 					}
 				}
 				out = append(out, sc)
@@ -498,7 +503,13 @@ func classifyField(name string, t types.Type, texpr ast.Expr) cmdField {
 				f.Width = "len(" + acc + ")"
 				f.Keep = "eq(" + acc + ", old(" + acc + "))"
 			} else {
-				f.Unsup = "slice of " + u.Elem().String()
+				// a list of structures (lock ranges, setup words, directory entries): the fixed part of the
+				// command is checked on the instance whose list is empty, which the precondition says
+				f.Enc = "bytes()"
+				f.Width, f.ConstW = "0", 0
+				f.Req = "len(" + acc + ") == 0"
+				f.Keep = "len(" + acc + ") == 0"
+				f.Restrict = "only instances with an empty list are covered (slice of " + u.Elem().String() + ")"
 			}
 		default:
 			f.Unsup = "type " + t.String()
